@@ -1222,7 +1222,7 @@ fn check_any(cx: &mut Cx, cfg: &Cfg, cmds: &[Vec<Vec<u8>>], segs: &[Vec<u8>], sr
     let replay = |what: &str, twin: &str| json!({"op": op, "commands": shown, "observed": vals.iter().map(|v| v.show()).collect::<Vec<_>>(), "end": end, "expected": what, "alone": twin, "source": src});
     if end != "eof" {
         let m = if let End::Crash(m) = &r.end { m.clone() } else { "no progress for 10 s".to_string() };
-        // KNOWN CAUSE (C04:crash:whitespace-command-name): the first command OUTSIDE MULTI whose name has no
+        // CAUSE OF THE FIXED DEFECT 5f3bab5 (C04:crash:whitespace-command-name; only attributed while the source still has `parts[0]`): the first command OUTSIDE MULTI whose name has no
         // non-white-space character panics check_acl_permission (`parts[0]` of an empty Vec).  Attributed only
         // if such a command exists, the panic is an index panic, at most the commands before it were
         // answered, and (./check, must_agree) the model of the current code predicts this very outcome.
@@ -1310,8 +1310,8 @@ fn any_case(cx: &mut Cx, rng: &mut Rng, variants: &[String]) {
 /// one command per segment
 fn any_corpus(cx: &mut Cx, variants: &[String]) {
     let d = Cfg::default_like();
-    // command names without a non-white-space character (must_reproduce witness of
-    // C04:crash:whitespace-command-name runs first), their near misses, outside and inside MULTI
+    // command names without a non-white-space character (witness of the fixed defect 5f3bab5,
+    // C04:crash:whitespace-command-name: must be answered like any unknown command now), their near misses, outside and inside MULTI
     for name in [&b""[..], b" ", b"\t", b"\r\n", b"  \x0b\x0c", b"\xc2\xa0", b"\xc2\x85", b"\xe3\x80\x80", b"\xe2\x80\x8a", b"\xe2\x80\x8b", b"\xe1\x9a\x80", b" a", b"\xff", b"\xe2\x80\xa8", b"\xe2\x81\x9f", b"\xe2\x80", b" \xc2"] {
         let cmds = vec![vec![b"PING".to_vec()], vec![name.to_vec()], vec![b"PING".to_vec()]];
         check_any(cx, &d, &cmds, &cmd_frames(&cmds), "corpus:ws-name");
